@@ -509,11 +509,13 @@ package yang
 //@ spec nsNameOf(e *Entry) string = nsAnchor(e).Parent != nil ? nsAnchor(e).namespace.Name
 //@     : ((nsAnchor(e).Node != nil && rootOf(nsAnchor(e).Node) != nil && nsOwner(rootOf(nsAnchor(e).Node)) != nil) ? nsOwner(rootOf(nsAnchor(e).Node)).Namespace.Name : "")
 //@ func (*Entry).InstantiatingModule props C12 C01
-//@   requires e != nil && (forall x *Entry :: ranked(x) && rootOK(x))
+//@   requires e != nil && (forall x *Entry :: ranked(x))
+//@   requires typeis(rootE(e).Node, *Module) ==> asptr(rootE(e).Node, *Module) != nil
 //@   requires forall x *Entry :: x != nil && x.Node != nil && rootOf(x.Node) != nil ==> rootOf(x.Node).Modules != nil
-//@   requires nsCacheOK(asptr(rootE(e).Node, *Module).Modules) && modsHaveNS(asptr(rootE(e).Node, *Module).Modules)
-//@   ensures  result1 == nil ==> (exists k string :: has(asptr(rootE(e).Node, *Module).Modules.Modules, k) && asptr(rootE(e).Node, *Module).Modules.Modules[k].Name == result
-//@            && asptr(rootE(e).Node, *Module).Modules.Modules[k].Namespace.Name == old(nsNameOf(e)))
+//@   requires modulesOf(rootE(e)) != nil ==> nsCacheOK(modulesOf(rootE(e))) && modsHaveNS(modulesOf(rootE(e)))
+//@   ensures  result1 == nil ==> old(modulesOf(rootE(e))) != nil && (exists k string :: has(old(modulesOf(rootE(e))).Modules, k) && old(modulesOf(rootE(e))).Modules[k].Name == result
+//@            && old(modulesOf(rootE(e))).Modules[k].Namespace.Name == old(nsNameOf(e)))
+//@   ensures[a-tree-outside-every-module-set-is-an-error] old(modulesOf(rootE(e))) == nil ==> result1 != nil
 //@   safe
 
 // ---------------------------------------------------------------------------
@@ -616,7 +618,7 @@ package yang
 //
 //@ spec rootE(x *Entry) *Entry = x == nil ? nil : (x.Parent == nil ? x : rootE(x.Parent))
 //@ func (*Entry).Find props C17 C04 C01 C19
-//@   requires forall x *Entry :: ranked(x) && rootOK(x)
+//@   requires forall x *Entry :: ranked(x) && (typeis(x.Node, *Module) ==> asptr(x.Node, *Module) != nil)
 //@   requires forall m *Module :: modOK(m)
 //@   requires forall x *Entry :: x != nil && x.Node != nil ==> rootOf(x.Node) != nil
 //@   requires forall m *Module :: m != nil ==> (forall i int :: 0 <= i && i < len(m.Import) ==> m.Import[i] != nil && m.Import[i].Prefix != nil)
@@ -850,9 +852,15 @@ package yang
 //@   modifies nothing
 //@ func (*Entry).GetWhenXPath props C19
 //@   modifies nothing
+// The module set of an entry: that of the module at the root of its tree; a
+// tree that was not built from a module (the tree of a grouping kept by
+// StoreUses) answers with the module its root's syntax node lies in, or nil.
+//@ spec modulesOf(r *Entry) *Modules = typeis(r.Node, *Module) ? asptr(r.Node, *Module).Modules
+//@     : ((r.Node != nil && rootOf(r.Node) != nil) ? rootOf(r.Node).Modules : nil)
 //@ func (*Entry).Modules props C19 C12 C01
-//@   requires e != nil && (forall x *Entry :: ranked(x) && rootOK(x))
-//@   ensures  result == asptr(rootE(e).Node, *Module).Modules
+//@   requires e != nil && (forall x *Entry :: ranked(x))
+//@   requires typeis(rootE(e).Node, *Module) ==> asptr(rootE(e).Node, *Module) != nil
+//@   ensures  result == modulesOf(rootE(e))
 //@   modifies nothing
 //@   safe
 //@   loop 1
